@@ -357,6 +357,10 @@ func (eng *Engine) resolveType(e ast.Expr, pkgPath string) types.Type {
 		if k != nil && v != nil {
 			return types.NewMap(k, v)
 		}
+	case *ast.InterfaceType:
+		if t.Methods == nil || len(t.Methods.List) == 0 {
+			return types.NewInterfaceType(nil, nil).Complete()
+		}
 	case *ast.ParenExpr:
 		return eng.resolveType(t.X, pkgPath)
 	}
